@@ -6,6 +6,7 @@ import ast
 from engine.cfg import CFG, normalise_compare, atoms
 from engine.model import src, stmt_key, dotted
 from engine.twins import TwinSpec, project, first_difference, count_events
+from engine import pat
 from engine.util import own_nodes, calls_with_nodes, where
 
 RULES = {
@@ -71,53 +72,64 @@ def run(model, rep, tier):
     for qn, qattr in (("dns.resolver.Resolver.resolve", "query"), ("dns.asyncresolver.Resolver.resolve", "async_query")):
         f = model.func(qn)
         cfg = CFG(f.node, implicit_exc=False)
-        qs = [(n, c) for (n, c) in calls_with_nodes(cfg) if isinstance(c.func, ast.Attribute) and c.func.attr == qattr and src(c.func.value) == "nameserver"]
+        qs = [(n, c) for (n, c) in calls_with_nodes(cfg) if isinstance(c.func, ast.Attribute) and c.func.attr == qattr and isinstance(c.func.value, ast.Name)]
         if len(qs) != 1:
             rep.blind("R-16.2", qn, where(f, f.node), f"{len(qs)} query call sites", stmt="timeout-arg")
             continue
         (qn_node, qc) = qs[0]
         kw = {k.arg: src(k.value) for k in qc.keywords}
-        rep.check(kw.get("timeout") == "timeout", "R-16.2", qn, where(f, qc), "the attempt is given timeout=timeout", f"the attempt is given timeout={kw.get('timeout')}", stmt="timeout-arg")
-        defs = [n for n in cfg.nodes if isinstance(n.ast, ast.Assign) and any(src(t) == "timeout" for t in n.ast.targets)]
-        okk = len(defs) == 1 and " ".join(src(defs[0].ast.value).split()) == "self._compute_timeout(start, lifetime, resolution.errors)" \
+        tv = kw.get("timeout", "")
+        rep.check(tv.isidentifier() and tv not in f.params(), "R-16.2", qn, where(f, qc), f"the attempt is given timeout={tv} (a local computed per attempt)", f"the attempt is given timeout={kw.get('timeout')}", stmt="timeout-arg")
+        defs = [n for n in cfg.nodes if isinstance(n.ast, ast.Assign) and any(src(t) == tv for t in n.ast.targets)]
+        e = pat.Env()
+        okk = len(defs) == 1 and pat.match(pat.parse_expr("self._compute_timeout(__start, lifetime, __res.errors)"), defs[0].ast.value, e) \
             and cfg.dominated_by_set(qn_node.id, [defs[0].id]) and len(defs[0].loops) >= 2 and defs[0].loops == qn_node.loops
         rep.check(okk, "R-16.2", qn, where(f, defs[0].ast if defs else f.node), "timeout = self._compute_timeout(start, lifetime, resolution.errors) is recomputed inside the attempt loop before every query",
                   "the per-attempt timeout is not recomputed from the lifetime budget before every query (the resolution can outlive its lifetime)", stmt="timeout-def")
-        sd = [n for n in cfg.nodes if isinstance(n.ast, ast.Assign) and any(src(t) == "start" for t in n.ast.targets)]
+        sd = [n for n in cfg.nodes if isinstance(n.ast, ast.Assign) and any(src(t) == e.get("__start", "?") for t in n.ast.targets)]
         rep.check(len(sd) == 1 and src(sd[0].ast.value) == "time.time()" and not sd[0].loops, "R-16.2", qn, where(f, f.node), "start is read once, before the loops",
                   "the lifetime start time is re-read inside a loop (budget restarts)", stmt="start-once")
     ct = model.func("dns.resolver.BaseResolver._compute_timeout")
     cfg = CFG(ct.node, implicit_exc=False)
-    tests = [n for n in cfg.nodes if n.kind == "test" and atoms(normalise_compare(n.ast.test)) == [("duration", ">=", "lifetime")]]
+    e = pat.Env()
+    dur_ok = pat.has(ct.node, "__now = time.time()", e) and pat.has(ct.node, "__dur = __now - start", e)
+    D = e.get("__dur", "?")
+    tests = [n for n in cfg.nodes if n.kind == "test" and atoms(normalise_compare(n.ast.test)) == [(D, ">=", "lifetime")]]
     raises = [n for n in cfg.nodes if isinstance(n.ast, ast.Raise) and "LifetimeTimeout" in src(n.ast)]
     rets = [n for n in cfg.nodes if isinstance(n.ast, ast.Return)]
     okk = len(tests) == 1 and any(cfg.edge_dominated(r.id, {(tests[0].id, "t")}) for r in raises) and all(cfg.edge_dominated(r.id, {(tests[0].id, "f")}) for r in rets) \
-        and [" ".join(src(r.ast.value).split()) for r in rets] == ["min(lifetime - duration, self.timeout)"]
+        and [" ".join(src(r.ast.value).split()) for r in rets] == [f"min(lifetime - {D}, self.timeout)"]
     rep.check(okk, "R-16.2", ct.qualname, where(ct, ct.node), "raises LifetimeTimeout when duration >= lifetime, else returns min(remaining, per-query timeout)",
               "_compute_timeout no longer (raises at duration >= lifetime, returns min(lifetime - duration, self.timeout))", stmt="budget")
     t = " ".join(src(ct.node).split())
-    rep.check("now = time.time()" in t and "duration = now - start" in t, "R-16.2", ct.qualname, where(ct, ct.node), "duration = now - start", "duration computed differently", stmt="duration")
+    rep.check(dur_ok, "R-16.2", ct.qualname, where(ct, ct.node), "duration = now - start", "duration computed differently", stmt="duration")
 
     # ---------------------------------------------------------------- R-16.3
     rc = model.func("dns.message.QueryMessage.resolve_chaining")
     cfg = CFG(rc.node, implicit_exc=False)
-    loops = [n for n in cfg.nodes if n.kind == "test" and isinstance(n.ast, ast.While) and atoms(normalise_compare(n.ast.test)) == [("count", "<", "MAX_CHAIN")]]
+    loops = [n for n in cfg.nodes if n.kind == "test" and isinstance(n.ast, ast.While) and len(atoms(normalise_compare(n.ast.test))) == 1 and atoms(normalise_compare(n.ast.test))[0][1:] == ("<", "MAX_CHAIN")]
+    CNT = atoms(normalise_compare(loops[0].ast.test))[0][0] if len(loops) == 1 else "?"
     if len(loops) != 1:
         rep.blind("R-16.3", rc.qualname, where(rc, rc.node), "chain loop `while count < MAX_CHAIN` not found", stmt="chain-loop")
     else:
         head = loops[0]
-        incs = [n.id for n in cfg.nodes if isinstance(n.ast, ast.AugAssign) and src(n.ast) == "count += 1"]
+        incs = [n.id for n in cfg.nodes if isinstance(n.ast, ast.AugAssign) and src(n.ast) == f"{CNT} += 1"]
         starts = [y for (y, k) in cfg.succ[head.id] if k == "t"]
         r = cfg.reachable(starts, blocked=incs)
         rep.check(bool(incs) and head.id not in r, "R-16.3", rc.qualname, where(rc, head.ast), "every trip round the chain loop passes `count += 1`",
                   "the chain loop can iterate without incrementing the counter: a CNAME loop never terminates", stmt="counter")
-        after = [n for n in cfg.nodes if n.kind == "test" and atoms(normalise_compare(n.ast.test)) == [("count", ">=", "MAX_CHAIN")]]
+        after = [n for n in cfg.nodes if n.kind == "test" and atoms(normalise_compare(n.ast.test)) == [(CNT, ">=", "MAX_CHAIN")]]
         okk = len(after) == 1 and any(isinstance(s, ast.Raise) and "ChainTooLong" in src(s) for s in after[0].ast.body)
         rep.check(okk, "R-16.3", rc.qualname, where(rc, rc.node), "a chain of MAX_CHAIN CNAMEs raises ChainTooLong", "an over-long chain no longer raises", stmt="too-long")
     mc = model.module("dns.message").assigns.get("MAX_CHAIN")
     rep.check(mc is not None and isinstance(model.const(model.module("dns.message"), mc), int), "R-16.3", "dns.message.MAX_CHAIN", "dns/message.py", "MAX_CHAIN is a finite integer constant", "MAX_CHAIN is not a constant integer", stmt="bound")
     t = " ".join(src(rc.node).split())
-    rep.check("min_ttl = min(min_ttl, answer.ttl)" in t and "min_ttl = min(min_ttl, crrset.ttl)" in t and "min_ttl = min(min_ttl, srrset.ttl, srdata.minimum)" in t, "R-16.3", rc.qualname, where(rc, rc.node),
+    e = pat.Env()
+    mins = pat.find_all(rc.node, "__m = min(__m, __x.ttl)")
+    crs = [c for c in ast.walk(rc.node) if isinstance(c, ast.Call) and src(c.func) == "ChainingResult" and len(c.args) >= 3]
+    okk = len(mins) == 2 and len({m[1]["__x"] for m in mins}) == 2 and len({m[1]["__m"] for m in mins}) == 1 and pat.has(rc.node, "__m = min(__m, __s.ttl, __sd.minimum)", e) \
+        and e["__m"] == mins[0][1]["__m"] and len(crs) == 1 and src(crs[0].args[2]) == e["__m"]
+    rep.check(okk, "R-16.3", rc.qualname, where(rc, rc.node),
               "minimum TTL over the answer, every CNAME followed, and (negative) the SOA ttl/minimum", "minimum-TTL accumulation changed", stmt="min-ttl")
 
     # the chain cursor: the name moved along the CNAME chain is the one looked up, the one the negative-TTL SOA walk starts from, and the canonical name returned
@@ -165,7 +177,7 @@ def run(model, rep, tier):
               "R-16.5", qr.qualname, where(qr, qr.node), "malformed reply / EOF / OS error / not-implemented removes the server for good", "a server answering garbage (or failing at the OS level) is no longer dropped", stmt="remove-on-broken")
     rep.check("elif isinstance(ex, dns.message.Truncated): if self.tcp_attempt: self.nameservers.remove(self.nameserver) else: self.retry_with_tcp = True" in t, "R-16.5", qr.qualname, where(qr, qr.node),
               "truncation: retry over TCP once on the same server; truncated over TCP removes it", "truncation handling changed (TCP retry is not armed exactly for a UDP truncation)", stmt="truncation")
-    rep.check("if rcode != dns.rcode.SERVFAIL or not self.resolver.retry_servfail: self.nameservers.remove(self.nameserver)" in t, "R-16.5", qr.qualname, where(qr, qr.node),
+    rep.check(pat.has(qr.node, "if __rc != dns.rcode.SERVFAIL or not self.resolver.retry_servfail:\n    self.nameservers.remove(self.nameserver)"), "R-16.5", qr.qualname, where(qr, qr.node),
               "other rcodes remove the server unless it is SERVFAIL with retry_servfail", "bad-rcode servers are no longer removed", stmt="remove-on-rcode")
     sets = [n for n in ast.walk(model.cls("dns.resolver._Resolution").node) if isinstance(n, ast.Assign) and src(n.targets[0]) == "self.retry_with_tcp" and src(n.value) == "True"]
     rep.check(len(sets) == 1, "R-16.5", "dns.resolver._Resolution", where(qr, qr.node), "retry_with_tcp is armed at exactly one site", f"retry_with_tcp is armed at {len(sets)} sites", stmt="arm-once")
@@ -173,7 +185,7 @@ def run(model, rep, tier):
     t2 = " ".join(src(nn.node).split())
     rep.check("if self.retry_with_tcp:" in t2 and "self.tcp_attempt = True self.retry_with_tcp = False return (self.nameserver, True, 0)" in t2, "R-16.5", nn.qualname, where(nn, nn.node),
               "the TCP retry is consumed once, on the same server, without back-off", "TCP retry is not (consumed once on the same server)", stmt="consume-retry")
-    rep.check("if not self.current_nameservers: if len(self.nameservers) == 0: raise NoNameservers(request=self.request, errors=self.errors) self.current_nameservers = self.nameservers[:] backoff = self.backoff self.backoff = min(self.backoff * 2, 2)" in t2,
+    rep.check(pat.has(nn.node, "if not self.current_nameservers:\n    if len(self.nameservers) == 0:\n        raise NoNameservers(request=self.request, errors=self.errors)\n    self.current_nameservers = self.nameservers[:]\n    __b = self.backoff\n    self.backoff = min(self.backoff * 2, 2)\n    ..."),
               "R-16.5", nn.qualname, where(nn, nn.node), "a new round is armed from the surviving servers with exponential back-off; none left raises NoNameservers", "round re-arming / NoNameservers changed", stmt="rearm")
     rep.check("self.nameserver = self.current_nameservers.pop(0)" in t2, "R-16.5", nn.qualname, where(nn, nn.node), "servers are tried in order within a round", "server selection changed", stmt="in-order")
     c2 = CFG(nr.node, implicit_exc=False)
@@ -182,7 +194,7 @@ def run(model, rep, tier):
     okk = len(loops) == 1 and len(nx) == 1 and c2.edge_dominated(nx[0].id, {(loops[0].id, "f")})
     rep.check(okk, "R-16.5", nr.qualname, where(nr, nr.node), "NXDOMAIN is raised only after every candidate name was consumed", "NXDOMAIN can be raised while candidate names remain", stmt="nxdomain-last")
     t3 = " ".join(src(nr.node).split())
-    rep.check("self.current_nameservers = self.nameservers[:] self.errors = [] self.nameserver = None self.tcp_attempt = False self.retry_with_tcp = False self.request = request self.backoff = 0.1" in t3,
+    rep.check(pat.has(nr.node, "self.current_nameservers = self.nameservers[:]\nself.errors = []\nself.nameserver = None\nself.tcp_attempt = False\nself.retry_with_tcp = False\nself.request = __r\nself.backoff = 0.1"),
               "R-16.5", nr.qualname, where(nr, nr.node), "each new candidate name starts with a full server list and clean retry state", "per-name state reset changed", stmt="reset-per-name")
     rep.check("self.nxdomain_responses[self.qname] = response" in t and "return (None, True)" in t, "R-16.5", qr.qualname, where(qr, qr.node), "NXDOMAIN for one candidate records the evidence and moves to the next name",
               "NXDOMAIN handling for a candidate changed", stmt="nxdomain-next")
